@@ -97,6 +97,21 @@ def ev(f, alpha):
     return None if any(v is None for v in vals) else False
 
 
+def literals(f, pos=True, acc=None):
+    """atom -> bool forced by a formula that is a conjunction of literals; compound parts are skipped"""
+    acc = {} if acc is None else acc
+    if f is True or f is False:
+        return acc
+    if f[0] == "A":
+        acc[f[1]] = pos
+    elif f[0] == "N":
+        literals(f[1], not pos, acc)
+    elif (f[0] == "&" and pos) or (f[0] == "|" and not pos):
+        for g in f[1]:
+            literals(g, pos, acc)
+    return acc
+
+
 def show_f(f):
     if f is True:
         return "T"
@@ -231,6 +246,11 @@ def f_pos(t, ctx):
     s = ctx.sign_of(t)
     if s is not None:
         return s.const_value() > 0
+    if t.is_nonneg():
+        # a sum of non-negative terms is positive iff one of its terms is non-zero
+        return Or(*[And(*[Not(ctx.fold(("Z", a))) for a, e in m if not is_sign(a)]) for m in t.num])
+    if (-t).is_nonneg():
+        return False
     return ctx.fold(("POS", norm_pos(t)))
 
 
